@@ -927,6 +927,7 @@ func init() {
 		if dn, err := os.OpenFile(os.DevNull, os.O_WRONLY, 0); err == nil {
 			os.Stdout = dn
 		}
+		gi := 0
 		for _, line := range bytes.Split(in, []byte("\n")) {
 			if len(bytes.TrimSpace(line)) == 0 {
 				continue
@@ -935,6 +936,8 @@ func init() {
 			if err := json.Unmarshal(line, &group); err != nil {
 				return 2
 			}
+			fmt.Fprintf(outF, "BEGINGROUP %d\n", gi)
+			gi++
 			for _, r := range runConcurrentGroup(group) {
 				b, _ := json.Marshal(r)
 				fmt.Fprintf(outF, "END %d %s\n", r.ID, b)
@@ -945,7 +948,10 @@ func init() {
 	}
 }
 
-// runConcGroups runs groups of scenarios (each group concurrently inside one child process).
+// runConcGroups runs groups of scenarios (each group concurrently inside one child process). A child that
+// dies inside a group (deadlock reported by the runtime, panic in a worker goroutine, fatal error) is
+// classified from its stderr, the group's scenarios get that status, and a new child continues with the
+// remaining groups.
 func runConcGroups(groups [][]Scn, label string, race bool) map[int]*Res {
 	out := map[int]*Res{}
 	work := os.Getenv("VERIF_WORK")
@@ -956,49 +962,108 @@ func runConcGroups(groups [][]Scn, label string, race bool) map[int]*Res {
 	if bin == "" || len(groups) == 0 {
 		return out
 	}
-	inF := filepath.Join(work, label+".in")
-	outF := filepath.Join(work, label+".out")
-	var buf bytes.Buffer
-	for _, g := range groups {
-		b, _ := json.Marshal(g)
-		buf.Write(b)
-		buf.WriteByte('\n')
-	}
-	_ = os.WriteFile(inF, buf.Bytes(), 0o644)
-	os.Remove(outF)
-	cmd := exec.Command(bin, "child", "wfconc", inF, outF)
-	cmd.Env = append(os.Environ(), "GOTRACEBACK=all")
-	if race {
-		cmd.Env = append(cmd.Env, "GORACE=halt_on_error=0 log_path="+filepath.Join(work, "race-"+label))
-	}
-	done := make(chan error, 1)
-	if err := cmd.Start(); err != nil {
-		return out
-	}
-	go func() { done <- cmd.Wait() }()
-	select {
-	case <-done:
-	case <-time.After(20 * time.Minute):
-		_ = cmd.Process.Kill()
-		<-done
-	}
-	if f, err := os.Open(outF); err == nil {
-		sc := bufio.NewScanner(f)
-		sc.Buffer(make([]byte, 1<<20), 1<<26)
-		for sc.Scan() {
-			line := sc.Text()
-			if i := strings.Index(line, "{"); i > 0 && strings.HasPrefix(line, "END ") {
-				var r Res
-				if json.Unmarshal([]byte(line[i:]), &r) == nil {
-					rr := r
-					out[r.ID] = &rr
+	rest := groups
+	for round := 0; len(rest) > 0 && round < len(groups)+1; round++ {
+		inF := filepath.Join(work, fmt.Sprintf("%s-%d.in", label, round))
+		outF := filepath.Join(work, fmt.Sprintf("%s-%d.out", label, round))
+		errF := filepath.Join(work, fmt.Sprintf("%s-%d.err", label, round))
+		var buf bytes.Buffer
+		for _, g := range rest {
+			b, _ := json.Marshal(g)
+			buf.Write(b)
+			buf.WriteByte('\n')
+		}
+		_ = os.WriteFile(inF, buf.Bytes(), 0o644)
+		os.Remove(outF)
+		cmd := exec.Command(bin, "child", "wfconc", inF, outF)
+		cmd.Env = append(os.Environ(), "GOTRACEBACK=all")
+		if race {
+			cmd.Env = append(cmd.Env, "GORACE=halt_on_error=0 log_path="+filepath.Join(work, "race-"+label))
+		}
+		ef, _ := os.Create(errF)
+		cmd.Stderr = ef
+		done := make(chan error, 1)
+		if err := cmd.Start(); err != nil {
+			return out
+		}
+		go func() { done <- cmd.Wait() }()
+		timedOut := false
+		select {
+		case <-done:
+		case <-time.After(20 * time.Minute):
+			timedOut = true
+			_ = cmd.Process.Signal(syscall.SIGQUIT)
+			select {
+			case <-done:
+			case <-time.After(10 * time.Second):
+				_ = cmd.Process.Kill()
+				<-done
+			}
+		}
+		if ef != nil {
+			ef.Close()
+		}
+		begun := -1
+		if f, err := os.Open(outF); err == nil {
+			sc := bufio.NewScanner(f)
+			sc.Buffer(make([]byte, 1<<20), 1<<26)
+			for sc.Scan() {
+				line := sc.Text()
+				if strings.HasPrefix(line, "BEGINGROUP ") {
+					fmt.Sscanf(line, "BEGINGROUP %d", &begun)
+					continue
+				}
+				if i := strings.Index(line, "{"); i > 0 && strings.HasPrefix(line, "END ") {
+					var r Res
+					if json.Unmarshal([]byte(line[i:]), &r) == nil {
+						rr := r
+						out[r.ID] = &rr
+					}
+				}
+			}
+			f.Close()
+		}
+		os.Remove(inF)
+		os.Remove(outF)
+		// which group (if any) was left unfinished?
+		unfinished := -1
+		if begun >= 0 && begun < len(rest) {
+			for _, sc := range rest[begun] {
+				if out[sc.ID] == nil {
+					unfinished = begun
 				}
 			}
 		}
-		f.Close()
+		if unfinished < 0 {
+			if begun+1 < len(rest) && begun >= 0 && !timedOut {
+				rest = rest[begun+1:] // child died between groups: go on
+				continue
+			}
+			os.Remove(errF)
+			break
+		}
+		eb, _ := os.ReadFile(errF)
+		os.Remove(errF)
+		es := string(eb)
+		status := "crash"
+		switch {
+		case strings.Contains(es, "all goroutines are asleep - deadlock!"):
+			status = "deadlock"
+		case timedOut:
+			status = "timeout"
+		case strings.Contains(es, "panic:") || strings.Contains(es, "fatal error:"):
+			status = "panic"
+		}
+		if len(es) > 6000 {
+			es = es[:6000]
+		}
+		for _, sc := range rest[unfinished] {
+			if out[sc.ID] == nil {
+				out[sc.ID] = &Res{ID: sc.ID, Status: status, Crash: es}
+			}
+		}
+		rest = rest[unfinished+1:]
 	}
-	os.Remove(inF)
-	os.Remove(outF)
 	return out
 }
 
